@@ -1493,6 +1493,10 @@ where
         if timestamp.saturating_sub(now.as_millis()) > MAX_TIME_DELTA.as_millis() as u64 {
             return Err(session::Error::InvalidTimestamp(timestamp));
         }
+        // A zero timestamp is never valid, and the gossip store refuses to record it.
+        if timestamp == Timestamp::MIN {
+            return Err(session::Error::InvalidTimestamp(timestamp));
+        }
 
         // We don't process announcements from nodes we don't know, since the node announcement is
         // what provides DoS protection.
